@@ -65,6 +65,9 @@ type Spec struct {
 	// after this many NewStream calls (attempts) every host of the cluster fails its health check: a later host selection - the
 	// re-attempt of a retry - finds no healthy host
 	HostsGoneAfter int    `json:"hosts_gone_after,omitempty"`
+	// sequences (seq.go): Timer.Stop comes too late for this request's timers - the runtime has already started the timer functions -
+	// so they run at their time although the request is over by then (emulated by making Stop a no-op on the armed timers)
+	KeepTimers bool            `json:"keep_timers,omitempty"`
 	Flavour  string            `json:"flavour,omitempty"` // "" = xprotocol-like (status read from the response headers); "http" = status read from the context variable
 	Service  string            `json:"service,omitempty"`
 	BodyLen  int               `json:"body_len,omitempty"`
